@@ -383,12 +383,24 @@ impl PackageBuilder {
             desc: "no parent directory found",
         })?;
 
+        // destinations such as "/usr/.." or "./" have a parent but no file name
+        let base_name = pb
+            .file_name()
+            .ok_or_else(|| Error::InvalidDestinationPath {
+                path: dest.clone(),
+                desc: "no file name found",
+            })?
+            .to_string_lossy()
+            .to_string();
+
         let (cpio_path, dir) = if dest.starts_with('.') {
-            (
-                dest.to_string(),
-                // strip_prefix() should never fail because we've checked the special cases already
-                format!("/{}/", parent.strip_prefix(".").unwrap().to_string_lossy()),
-            )
+            let parent = parent
+                .strip_prefix(".")
+                .map_err(|_| Error::InvalidDestinationPath {
+                    path: dest.clone(),
+                    desc: "invalid start, expected / or ./",
+                })?;
+            (dest.to_string(), format!("/{}/", parent.to_string_lossy()))
         } else {
             (
                 format!(".{}", dest),
@@ -401,8 +413,7 @@ impl PackageBuilder {
         let hash_result = hasher.finalize();
         let sha_checksum = hex::encode(hash_result); // encode as string
         let entry = PackageFileEntry {
-            // file_name() should never fail because we've checked the special cases already
-            base_name: pb.file_name().unwrap().to_string_lossy().to_string(),
+            base_name,
             size: content.len() as u64,
             content,
             flags: options.flag,
